@@ -5,7 +5,9 @@
    included); lists are of any length. *)
 Require Import Cherab.Common.Qx.
 Require Import Cherab.Model.C17_Voxels.
+Require Import Cherab.Model.C17_Check.
 Require Import Cherab.Proofs.C17_Polygon Cherab.Proofs.C17_Voxel Cherab.Proofs.C17_Select Cherab.Proofs.C17_Emissivity.
+Require Import Cherab.Proofs.C17_Discrete Cherab.Proofs.C17_Check.
 From Coq Require Import Qabs.
 Open Scope Q_scope.
 
@@ -145,9 +147,11 @@ Print Assumptions C17_sample_point_in_triangle.
    C17_select_picks_area_interval triangle j is chosen exactly when v = area * u lies in an interval of
    length area_j; and the resulting expectation  sum_j (area_j / area) * mean_j  equals, for a linear
    emissivity (mean over a triangle = value at its centroid), the value at the polygon centroid, i.e.
-   the exact area-mean; for equal means it is that constant.  Missing: the measure-theoretic steps
-   (u uniform on [0,1) => P(j) = area_j / area; point_triangle is uniform on the triangle; additivity of
-   the mean of a general integrable f over the triangles), which are not formalised. *)
+   the exact area-mean; for equal means it is that constant.  The step "u uniform => P(j) = area_j / area" is
+   no longer a hypothesis: C17_selection_probability_on_uniform_grid and C17_expectation_on_uniform_grid prove it
+   for the discrete variate uniform() really is (N-point grid, N = 2^53) with the explicit error 1/N.
+   Still missing: that point_triangle is uniform on the triangle (the sqrt transform) and the additivity of the
+   mean of a general integrable f over the triangles; neither is formalised. *)
 Theorem C17_emissivity_unbiased_partial :
   (forall l tris, clip_check (seq 0 (length l)) tris = true -> (forall t, In t tris -> tri2_of l t <= 0) ->
      Qsum (map (tri_area_of l) tris) == area l) /\
@@ -176,6 +180,81 @@ Theorem C17_stratified_choice_refuted :
     expected_emissivity areas means 1 == expected_estimate areas means.
 Proof. exact stratified_choice_refuted. Qed.
 Print Assumptions C17_stratified_choice_refuted.
+
+(* ---- deepening round ------------------------------------------------------------------------------------------ *)
+
+(* the discrete probability statement: u uniform on the N-point grid {m/N} (raysect's uniform(): N = 2^53), any
+   number of triangles with non-negative areas: the fraction of grid values for which line 442 selects triangle j
+   differs from a_j / A by less than 1/N *)
+Theorem C17_selection_probability_on_uniform_grid :
+  forall areas N j, (forall a, In a areas -> 0 <= a) -> 0 < Qsum areas -> (0 < N)%nat -> (j < length areas)%nat ->
+  Qabs (inject_Z (Z.of_nat (hits areas N j)) / inject_Z (Z.of_nat N) - nth j areas 0 / Qsum areas)
+  < 1 / inject_Z (Z.of_nat N).
+Proof. exact hits_close_to_area_share. Qed.
+Print Assumptions C17_selection_probability_on_uniform_grid.
+
+(* hence the expectation over that variate of the selected triangle's mean is within (sum |mean_j|) / N of the
+   area-weighted mean, which is [expected_estimate] of C17_emissivity_unbiased_partial *)
+Theorem C17_expectation_on_uniform_grid :
+  (forall areas means N, (forall a, In a areas -> 0 <= a) -> 0 < Qsum areas -> (0 < N)%nat ->
+     Qabs (grid_expectation areas means N - area_weighted_mean areas means)
+     <= (1 / inject_Z (Z.of_nat N)) * Qsum (map (fun j => Qabs (nth j means 0)) (seq 0 (length areas)))) /\
+  (forall areas means, length means = length areas -> ~ Qsum areas == 0 ->
+     area_weighted_mean areas means == expected_estimate areas means).
+Proof. split; [exact grid_expectation_close | exact area_weighted_mean_is_expected_estimate]. Qed.
+Print Assumptions C17_expectation_on_uniform_grid.
+
+(* the cumulative areas the lookup bisects are non-decreasing, so the bisection contract applies *)
+Theorem C17_cumulative_areas_sorted :
+  (forall a b c, 0 <= tri_area a b c) /\ (forall l tris, sorted (cumulative (map (tri_area_of l) tris))).
+Proof. split; [exact tri_area_nonneg | exact cumulative_tri_areas_sorted]. Qed.
+Print Assumptions C17_cumulative_areas_sorted.
+
+(* the reference used by the failing-input search (trapezoid rule) is the model's area *)
+Theorem C17_search_reference_is_model : forall l, Qabs (cyc_sum gw l) / 2 == area l.
+Proof. exact trapezoid_is_shoelace. Qed.
+Print Assumptions C17_search_reference_is_model.
+
+(* the reduced-fraction evaluators the correspondence runs compute the model's values *)
+Theorem C17_fast_evaluators_equal_model :
+  (forall l, area_r l == area l) /\ (forall l, oeq (centroid_r l) (centroid l)) /\
+  (forall pi l, volume_r pi l == volume pi l) /\ (forall pi vs, total_volume_r pi vs == total_volume pi vs).
+Proof. repeat split; [apply area_r_ok | apply centroid_r_ok | apply volume_r_ok | apply total_volume_r_ok]. Qed.
+Print Assumptions C17_fast_evaluators_equal_model.
+
+(* constructor: what is accepted has >= 3 rows of exactly two numbers, r >= 0 everywhere, a known primitive type,
+   and is stored in normalised order *)
+Theorem C17_constructor_accepts_only_valid :
+  forall rows ptype l, construct rows ptype = inr l ->
+  exists pts, rows = map (fun p => [px p; py p]) pts /\ l = normalise pts /\ (3 <= length pts)%nat /\
+              (forall p, In p pts -> 0 <= px p) /\ (ptype = 0 \/ ptype = 1)%Z.
+Proof. exact construct_accepts. Qed.
+Print Assumptions C17_constructor_accepts_only_valid.
+
+(* the loop takes exactly grid_samples draws from the stream; a positive grid_samples gives the estimator of the
+   theorems above; 0 raises, negative values return 0 without drawing *)
+Theorem C17_draw_stream :
+  (forall ntri n stream, (3 * n <= length stream)%nat -> length (fst (take_draws ntri n stream)) = n) /\
+  (forall sqrt f l tris stream, fst (emissivity_call sqrt f l tris 0 stream) = None) /\
+  (forall sqrt f l tris stream n, (n < 0)%Z ->
+     exists q, fst (emissivity_call sqrt f l tris n stream) = Some q /\ q == 0 /\
+               snd (emissivity_call sqrt f l tris n stream) = stream).
+Proof.
+  split; [exact take_draws_length | split].
+  - intros. apply emissivity_call_policy.
+  - intros sqrt f l tris stream. apply emissivity_call_policy.
+Qed.
+Print Assumptions C17_draw_stream.
+
+(* record of the finding outside the reported numbers: the constructor's rectangle test accepts an isosceles
+   trapezoid (stored clockwise, first edge horizontal) whose area 6 is not the bounding-box area 8 that
+   _build_csg_from_rectangle then builds; true axis-aligned rectangles are always accepted *)
+Theorem C17_rectangle_helper_accepts_trapezoid :
+  (has_rectangular_cross_section trapezoid_witness = true /\ normalise trapezoid_witness = trapezoid_witness /\
+   area trapezoid_witness == 6 /\ bbox_area trapezoid_witness == 8) /\
+  (forall r0 r1 z0 z1, has_rectangular_cross_section (rectangle r0 r1 z0 z1) = true).
+Proof. split; [exact rectangle_helper_accepts_trapezoid | exact rectangle_helper_true_rectangles]. Qed.
+Print Assumptions C17_rectangle_helper_accepts_trapezoid.
 
 (* non-vacuity: a concave pentagon (given anticlockwise), its stored form, raysect's triangulation *)
 Definition witness : list pt := [(1, 0); (2, 0); (2, 1); (3 # 2, 1 # 2); (1, 1)].
